@@ -235,13 +235,16 @@ func (e *executor) processInput(workflow *Workflow) (typedInput schema.Scope, er
 		return nil, fmt.Errorf("bug: unserialized input is not a scope")
 	}
 	defer func() {
-		// Linking the references of the scope panics if the root object or a referenced object does not exist.
+		// Linking the references of the scope panics if a referenced object does not exist.
 		if r := recover(); r != nil {
 			typedInput = nil
 			err = &ErrInvalidWorkflow{fmt.Errorf("invalid workflow input section (%v)", r)}
 		}
 	}()
 	typedInput.ApplySelf()
+	// Accessing the root object panics if it is missing or its ID does not match. Find out now, not while the
+	// expressions of the workflow are being analyzed.
+	_ = typedInput.RootObject()
 	return typedInput, nil
 }
 
